@@ -688,7 +688,7 @@ pub fn def() -> PropertyDef {
     PropertyDef {
         id: "C06",
         level: "exploration",
-        rule: "filter: a question (5 names x 8 types), a match count 0..labels+1 and a reply of 0..5 answer, 0..4 authority and 0..4 additional records whose owners are the question name, its ancestors, a sibling, a child, unrelated names, nameserver host names or alias targets, over A/AAAA/NS/CNAME/SOA/TXT/unknown type, sometimes a non-IN class: on-path and off-path CNAMEs, duplicate CNAME owners, NS for non-ancestors or with foreign owners but selected hosts, shallower/equal/deeper NS, glue for named and unnamed hosts in every section; validate_nameserver_response (hook H3) is judged by a validity predicate: accepted answer records lie on one maximal alias path from the question name or have the asked type at its end; SOA from the authority section with an ancestor owner; a delegation is to an ancestor deeper than the match count, its hosts named by NS records it owns, its records are those NS records or addresses of those hosts. end-to-end: resolve() in recursive mode against a scripted mock (hook H2) sending 1..8 such replies, one in three with a header fault (wrong ID, QR=0, opcode, TC, rcode 1/2/4/5/9, altered question); afterwards every record in the answer and in the cache (inspection hook) must be traceable by its tag to a reply without header fault and be relevant to the question that reply answered. Non-trivial: the reply holds at least one record that must be dropped and one that may be used (filter); at least one faulty and one clean reply were sent (end-to-end). Distinct by hash of the case.",
+        rule: "filter: a question (5 names x 8 types), a match count 0..labels+1 and a reply of 0..5 answer, 0..4 authority and 0..4 additional records whose owners are the question name, its ancestors, a sibling, a child, unrelated names, nameserver host names or alias targets, over A/AAAA/NS/CNAME/SOA/TXT/unknown type, sometimes a non-IN class: on-path and off-path CNAMEs, duplicate CNAME owners, NS for non-ancestors or with foreign owners but selected hosts, shallower/equal/deeper NS, glue for named and unnamed hosts in every section; validate_nameserver_response (hook H3) is judged by a validity predicate: accepted answer records lie on one maximal alias path from the question name or have the asked type at its end; SOA from the authority section with an ancestor owner; a delegation is to an ancestor deeper than the match count, its hosts named by NS records it owns, its records are those NS records or addresses of those hosts. end-to-end: resolve() in recursive mode against a scripted mock (hook H2) sending 1..8 such replies, one in three with a header fault (wrong ID, QR=0, opcode, TC, rcode 1/2/4/5/9, altered question); afterwards every record in the answer and in the cache (inspection hook) must be traceable by its tag to a reply without header fault and be relevant to the question that reply answered; the SOA of a negative answer must come from the authority section of a clean reply, enclose the name asked and not lie above the delegation in use (filter part: the match count). Non-trivial: the reply holds at least one record that must be dropped and one that may be used (filter); at least one faulty and one clean reply were sent (end-to-end). Distinct by hash of the case.",
         assumptions: vec!["None (discard the reply) is always acceptable for the filter", "record class is not judged"],
         parts: vec![Box::new(Direct), Box::new(EndToEnd)],
         budget_s: |t| t.pick(900, 10_800),
